@@ -86,6 +86,15 @@ def judge(transport, status, sensekind, raw, outcome, cmd, where):
             if got != triple:
                 out.append(("%s/%s/check_condition_wrong_sense" % (transport, where),
                             "CheckCondition reports key/asc/ascq %r, target sent %r" % (got, triple)))
+            else:
+                # what the user reads (str / print of the error) names the same key and code as the fields do
+                try:
+                    text = str(val)
+                except Exception as e:   # noqa: BLE001
+                    text = "raised %s" % type(e).__name__
+                if ("(0x%02X)" % triple[0]) not in text or ("(0x%02X%02X)" % (triple[1], triple[2])) not in text:
+                    out.append(("%s/%s/check_condition_wrong_text" % (transport, where),
+                                "the error prints as %r, the target sent key %#04x asc/ascq %#04x/%#04x" % (text, triple[0], triple[1], triple[2])))
         return out
     # any other status
     if kind == "ret":
